@@ -100,3 +100,23 @@ MUTANTS += [
              "            v[:, i + 1] = (a[1][0] * u[:, i] + a[1][1] * v[:, i] + b[1][0] * acc[i] + b[1][1] * acc[i + 1])\n",
          why="correct period-blocked time loop: must not raise an alarm"),
 ]
+MUTANTS += [
+    dict(id="c02-obj-sorted-periods", prop="C02", file="eqsig/single.py",
+         old="dh.pseudo_response_spectra(values_interp, dt_interp, self.response_times, xi)",
+         new="dh.pseudo_response_spectra(values_interp, dt_interp, np.sort(self.response_times), xi)",
+         why="object spectra silently reordered to ascending periods (permutation law on AccSignal.s_d / s_v / s_a)"),
+    dict(id="c02-obj-coarser-step", prop="C02", file="eqsig/single.py",
+         old="        if target_dt < self.dt:\n            values_interp, dt_interp = interp_array_to_approx_dt(self.values, self.dt, target_dt, even=False)\n",
+         new="        if target_dt < self.dt:\n            values_interp, dt_interp = interp_array_to_approx_dt(self.values, self.dt, target_dt, even=False)\n"
+             "            values_interp = values_interp[1::2]\n            dt_interp = dt_interp * 2\n",
+         why="object spectra computed on every other sample of the refined record, shifted by half a step (not a refinement of the raw "
+             "record: the spectra can fall below those of the raw record)"),
+    dict(id="c02-true-sv-parabola", prop="C02", file="eqsig/sdof.py",
+         old="    svs = absmax(resp_v, axis=1)\n",
+         new="    svs = absmax(resp_v, axis=1)\n    if resp_v.shape[1] > 2:\n"
+             "        i_ = np.clip(np.argmax(abs(resp_v), axis=1), 1, resp_v.shape[1] - 2)\n        r_ = np.arange(resp_v.shape[0])\n"
+             "        y0_, y1_, y2_ = abs(resp_v[r_, i_ - 1]), abs(resp_v[r_, i_]), abs(resp_v[r_, i_ + 1])\n"
+             "        c_ = y0_ - 2 * y1_ + y2_\n        svs = np.where(c_ < 0, y1_ - 0.125 * (y2_ - y0_) ** 2 / np.where(c_ < 0, c_, -1.0), svs)\n",
+         why="true S_v estimated by a three-point parabolic peak fit (refinement law on true spectra: the estimate of the raw record "
+             "exceeds that of the refined one)"),
+]
